@@ -240,7 +240,13 @@ def eval_node(case):
         kw = dict(image_ref='img', image_type='qcow2')
     if toggle == 'management_ip':
         kw = dict(management_ip='10.0.0.1')
-    n = t.add_node(name='nx', site='S1', ntype=NodeType[ntype], **kw)
+    if toggle == 'no-site/builder':
+        # the same node kinds as their builder calls make them (a switch with its own service and ports, a facility with its
+        # service and port), then the site taken away
+        n = t.add_switch(name='nx', site='S1') if ntype == 'Switch' else t.add_facility(name='nx', site='S1')
+        toggle = 'no-site'
+    else:
+        n = t.add_node(name='nx', site='S1', ntype=NodeType[ntype], **kw)
     if toggle == 'no-site':
         n.unset_property('site')
     if toggle == 'component':
@@ -258,7 +264,7 @@ def eval_node(case):
     except Exception as e:
         got = 'reject'
     if got != want:
-        v.append((f'validate-node/{"accepts-invalid" if got == "accept" else "rejects-valid"}/{ntype}/{toggle}',
+        v.append((f'validate-node/{"accepts-invalid" if got == "accept" else "rejects-valid"}/{ntype}/{case[1]}',
                   f'{ntype} node with {toggle}: validate() {got}s, the node table says {want}'))
     return {'v': v, 'nt': tuple(case), 'out': f'node:{want}'}
 
@@ -560,6 +566,7 @@ def run(report):
                   rule='every service type over interfaces whose derived service-port names coincide (two nodes on two sites; two '
                        'or three sub-interfaces of one node): counts, sites and kinds are judged over ALL connected interfaces')
     nodes = [(nt, tg) for nt in PINNED_NODES for tg in (None, 'no-site', 'image', 'management_ip', 'component')]
+    nodes += [(nt, 'no-site/builder') for nt in ('Switch', 'Facility') if nt in PINNED_NODES]
     explore_cases(report, 'nodes', eval_node, nodes, chunk=2, rule='6 node types x (plain | site unset | image | management ip | a component)')
     explore_cases(report, 'mirror', eval_mirror, [(k, d) for k in ('dedicated', 'shared') for d in ('Both', 'RX_Only', 'TX_Only')], chunk=1,
                   rule='port mirror services built through add_port_mirror_service')
